@@ -29,7 +29,10 @@ RULE = ("cases: random trees (1..6 nodes quick, ..8 thorough; random child order
         "per row / per column by symbols, and a planted stream (2..4 nodes, per-entry symbols, tied rows/columns, rank "
         "exposed only by one specific rational row or column operation); method SGE (bond vs numerical "
         "Schmidt rank on every edge) and BASE (vertex counts vs Lean model).  non-trivial = >= 2 terms, >= 2 nodes "
-        "and some edge whose Schmidt rank is smaller than the number of terms")
+        "and some edge whose Schmidt rank is smaller than the number of terms; plus stream numgauss: random rational "
+        "matrices <= 6x6 (products of prescribed rank, sparse, dense, dependent row, zeroed lines, permuted) given to "
+        "gaussian_elimination directly: triple = Lean model of C13, exact, bond = rank over Q (own fraction "
+        "elimination), diagonal pattern when there is no zero line; non-trivial = >= 2x2 with 0 < rank < min(m, n)")
 PARTIAL = [
     "bond(SGE) <= operator Schmidt rank for every distinct-term Hamiltonian is the research claim of the method "
     "(combine_subtrees, Gamma matrix, symbolic elimination, vertex cover); it is not proved and false of the code in two "
@@ -42,6 +45,12 @@ PARTIAL = [
     "shape of the from_state_diagram model) and ttno_bonds_eq_vertex_counts; the identification of a TTNO's edge "
     "cut with such a factorisation and the optimality of the elimination + minimum cover (rank reached) are not proved",
     "genericity is sampled (random complex values), not symbolic",
+    "numeric (symbol-free) Gamma: proved for all sizes - a reduced matrix without zero row/column is square and diagonal "
+    "(sge_numeric_fully_reduced_partial: loop invariants of the deletion-free last pass), a fully reduced matrix has "
+    "minimum cover = number of non-zeros = rank M' >= rank Gamma (cover_of_fully_reduced, rank_of_fully_reduced, "
+    "sge_numeric_rank_le_reduced); NOT proved: that M' has no zero line when Gamma has none, and rank M' <= rank Gamma "
+    "(one-sided invertibility of Op_l, Op_r) - both decided per input by the numgauss stream; 'M' is always fully "
+    "reduced' is false of the code (sge_numeric_not_fully_reduced, Gamma with zero columns)",
 ]
 ASSUMPTIONS = ["numerical rank threshold 1e-9 relative to the largest singular value; dense dimension <= 72 (quick) / 216",
                "the classification of F-C12c asks the Lean model of gaussian_elimination of property C13 through the "
@@ -429,7 +438,7 @@ def schmidt_ranks(case, M: np.ndarray, order: List[str], dims: List[int]) -> Dic
 # ------------------------------------------------------------------ numeric coefficient matrices (no symbols)
 # For a purely rational Gamma symbolic Gaussian elimination is ordinary Gaussian elimination.  Theorems behind this
 # stream (lean/Ptn/C12/Props.lean): `cover_of_fully_reduced`, `rank_of_fully_reduced`,
-# `sge_numeric_rank_le_reduced`, `sge_numeric_not_fully_reduced` (the pattern claim is FALSE when Gamma has a zero
+# `sge_numeric_rank_le_reduced`, `sge_numeric_fully_reduced_partial`, `sge_numeric_not_fully_reduced` (the pattern claim is FALSE when Gamma has a zero
 # row or column - which the construction never produces: every U / V node of a cut carries an edge).
 
 def frac_rank(M) -> int:
@@ -559,7 +568,17 @@ def run_numeric_case(ctx, case, model_out: Optional[List[str]] = None):
     pp = len(set(rows)) == len(rows) and len(set(cols)) == len(cols)
     ctx.tally("numeric pattern", ("partial permutation" if pp else "NOT a partial permutation")
               + (" (zero line in Gamma)" if zl else ""))
+    # theorem `sge_numeric_fully_reduced_partial`: hypothesis "M' has no zero row / column" validated on the live call;
+    # its conclusion (square, non-zero entries exactly on the diagonal) must then hold for the library's M'
+    out_zl = has_zero_line(A)
+    ctx.tally("numeric reduced matrix has a zero line", out_zl)
+    if not out_zl:
+        ctx.hyp_validated += 1
+        if not (p == q and sorted(supp) == [(i, i) for i in range(p)]):
+            ctx.oracle_fail(case, f"reduced matrix {p}x{q} without zero row/column is not diagonal: support {supp[:8]}")
     if not zl:
+        if out_zl:
+            ctx.oracle_fail(case, "Gamma without zero row/column, but the reduced matrix has a zero row or column")
         if not pp:
             ctx.oracle_fail(case, f"Gamma without zero row/column: reduced matrix has two non-zeros in a row or column: "
                                   f"support {supp[:8]}")
